@@ -1965,6 +1965,19 @@ impl NodeMut for XmlElement {
             return Err(error::DomException::WrongDocumentErr)?;
         }
 
+        // a merged text node stands for several adjacent items: all of them leave
+        if let XmlNode::ExpandedText(text) = old_child {
+            if self.element.borrow().delete(old_child.id()).is_none() {
+                return Err(error::DomException::NotFoundErr)?;
+            }
+
+            for piece in text.data.iter().skip(1) {
+                self.element.borrow().delete(piece.id());
+            }
+
+            return Ok(old_child.clone());
+        }
+
         match self.element.borrow().delete(old_child.id()) {
             Some(v) => Ok(XmlNode::from(v)),
             _ => Err(error::DomException::NotFoundErr)?,
